@@ -368,6 +368,58 @@ func (c *PCluster) Write(i int, id int, timeout time.Duration) string {
 	}
 }
 
+// RaceWriteNewTerm lets a client write pass the leader's status check, holds it before the WAL append,
+// sends a NewTerm request meanwhile, and reports the head the node answers and the head of its WAL
+// once both are done.
+func (c *PCluster) RaceWriteNewTerm(i int, id int, term int64) string {
+	lc, err := c.Nodes[i].dirc.GetLeader(Shard)
+	if err != nil {
+		return c.NewTerm(i, term)
+	}
+	release := make(chan struct{})
+	reached := make(chan struct{})
+	var once sync.Once
+	server.SetVerifYieldHook(lc, func(p string) {
+		if p == "leader.write.allocated" {
+			once.Do(func() { close(reached); <-release })
+		}
+	})
+	defer server.SetVerifYieldHook(lc, nil)
+	shard := Shard
+	wdone := make(chan struct{})
+	go func() {
+		cb := writeCb{done: make(chan string, 1)}
+		lc.Write(context.Background(), &proto.WriteRequest{Shard: &shard, Puts: []*proto.PutRequest{{Key: fmt.Sprintf("w%d", id), Value: []byte(fmt.Sprint(id))}}}, cb)
+		close(wdone) // the append (or the refusal) is done when Write returns
+	}()
+	select {
+	case <-reached:
+	case <-wdone: // refused before the yield point (not leader)
+	case <-time.After(2 * time.Second):
+	}
+	ntDone := make(chan string, 1)
+	go func() { ntDone <- c.NewTerm(i, term) }()
+	var rep string
+	select {
+	case rep = <-ntDone:
+		close(release)
+	case <-time.After(150 * time.Millisecond):
+		close(release)
+		rep = <-ntDone
+	}
+	<-wdone
+	if !strings.HasPrefix(rep, "head=") {
+		return rep
+	}
+	v := c.View(i)
+	wh := "-1:-1"
+	if len(v.Log) > 0 {
+		last := v.Log[len(v.Log)-1]
+		wh = fmt.Sprintf("%s:%d", last[:strings.Index(last, ":")], len(v.Log)-1)
+	}
+	return rep + " wal=" + wh
+}
+
 // Restart closes the node's controllers (process restart); they are re-created on demand.
 func (c *PCluster) Restart(i int) error {
 	n := c.Nodes[i]
